@@ -10,16 +10,22 @@ from .walktap import Tap, export_dag
 
 TRUSTED = [
     "Coq 8.16.1 kernel; vm_compute evaluates the walker model on the exported histories; no native_compute",
-    "hand model models/WalkerFail.v over core/DagWalk.v (stack and memo are instance attributes that survive an exception; one-shot memo cleared only on success), tied by correspondence on every failing history of this run: answer kind of every call, callback order, loop iterations, the stack and the memo keys left behind",
+    "hand model models/WalkerFail.v over core/DagWalk.v (stack and memo are instance attributes; iter_walk empties the stack when the loop raises, walk clears a one-shot memo in its finally), tied by correspondence on every failing history of this run: answer kind of every call, callback order, loop iterations, the stack and the memo keys left behind",
     "harness/walktap.py (observation from outside) and the fault injector of this file (a wrapper in walker.functions that raises at one chosen key)",
     "twin run: the same formulas built in a second, untouched Environment; results compared up to the order of commutative arguments",
     "the SMT-LIB parser, the formula manager's node table and solver objects are not modelled in Coq: their part of C15 is decided by the twin comparison only",
 ]
 ASSUMPTIONS = [
-    "C15_failure_transparent_partial: persistent walkers, every call of the history fails (if at all) at the root of its traversal",
-    "answers are compared as: same value, or both raise (ans_equiv); which exception is raised first is not compared in the theorem (it is in the twin run)",
+    "answers are compared as: same value, or both raise (ans_equiv) for persistent walkers, equal outright for the one-shot walker; which exception is raised first is compared in the twin run only",
     "for SizeOracle the probes that the model sees use the measure of the failing call (the stack stores formulas, the model stores keys)",
+    "walker objects created per call (NNFizer, CNFizer, PolarityCNFizer - whose own iter_walk has no try/except -, PrenexNormalizer, AIGer, SmtDagPrinter) are not long-lived and not probed",
 ]
+
+# Former findings, now regression cases (corpus): (known_findings key, history); run first.
+CORPUS = ["dagwalker:exception-leaves-stack:Simplifier  simplify(And(r, Or(q, <custom node>))) raises; simplify(And(q, q)) == q",
+          "dagwalker:exception-leaves-stack:<every oracle>  same history on env.fvo/qfo/typeso/theoryo/ao/sizeo",
+          "dagwalker:exception-keeps-oneshot-memo:MGSubstituter  substitute(And(Not p, a<b), {p:a, a:c}) raises; substitute(a<b, {a:b}) == b<b",
+          "dagwalker:exception-keeps-oneshot-memo:MGSubstituter  substitute(And(x, Not y), {y:i}) raises; substitute(And(x,z), {x:z}) == And(z,z); substitute(x, {x:y}) == y"]
 
 
 class InjectedFault(Exception):
@@ -191,11 +197,8 @@ def run_injected(chk, rnd, spec, rows, stats):
             rep = dict(replay, kind="history", what="after a call of %s that raised at %s, later calls differ from the untouched twin environment"
                        % (name, "the root of its traversal" if at_root else "an inner node"),
                        differences=h.diffs[:4], history=["%s(%s) with the callback raising at row %d" % (name, "row %d" % gi, idx), "probe calls"])
-            # theorems: persistent walker + failure at the root => no trace (C15_failure_transparent_partial);
-            # one-shot walker => no trace only if nothing was memoised before (leaf root, C15_oneshot_pristine)
-            if at_root and (not spec[4] or not h.table[h.ids[key_of(kind, g)]]):
-                chk.violation(rep, key="trace-after-root-failure:%s" % name)
-            elif spec[4]:
+            # theorems C15_failure_transparent / _oneshot: no trace wherever the callback raised
+            if spec[4]:
                 chk.violation(rep, key="dagwalker:exception-keeps-oneshot-memo:%s" % name)
             else:
                 chk.violation(rep, key="dagwalker:exception-leaves-stack:%s" % name)
@@ -398,6 +401,68 @@ def run_parser(chk, rnd, stats):
                               key="parser:failed-script-keeps-declarations" if redeclared else "parser:trace-after-failure:%s" % label)
 
 
+def run_corpus(chk, stats):
+    """The minimal histories of the repaired defects; each must behave like the twin."""
+    from pysmt.environment import Environment
+    from pysmt.typing import BOOL, INT
+    NT = custom_node_type()
+
+    def expect(key, label, got, want):
+        stats["probe_calls"] += 1
+        if canon_outcome(got) != canon_outcome(want):
+            chk.violation({"kind": "history", "what": "regression of a repaired defect: " + label, "after_failure": list(canon_outcome(got)),
+                           "expected": list(canon_outcome(want)), "repro": "harness.c15.replay_corpus()"}, key=key)
+    for spec in _specs():
+        name, get, kind, early, oneshot, call = spec
+        if kind == "subst":
+            continue
+        env = Environment()
+        env.add_dynamic_walker_function(NT, type(env.stc), lambda self, formula, args, **kw: BOOL)
+        m = env.formula_manager
+        q, r = m.Symbol("q", BOOL), m.Symbol("r", BOOL)
+        cn = m.create_node(node_type=NT, args=(q,))
+        w = get(env)
+        first = outcome(lambda: call(env, w, m.And(r, m.Or(q, cn)), None))
+        stats["failing_calls"] += 1
+        expect("dagwalker:exception-leaves-stack:%s" % name, "%s on And(r, Or(q, <custom node>)) must raise" % name,
+               (first[0], None), ("raise", None))
+        twin = Environment()
+        tm_ = twin.formula_manager
+        tq = tm_.Symbol("q", BOOL)
+        for _ in range(2):
+            expect("dagwalker:exception-leaves-stack:%s" % name, "%s(And(q, q)) after the failing call" % name,
+                   outcome(lambda: call(env, w, m.And(q, q), None)), outcome(lambda: call(twin, get(twin), tm_.And(tq, tq), None)))
+        if len(w.stack) != 0:
+            chk.violation({"kind": "history", "what": "%s.stack not empty after a failing call" % name, "repro": "harness.c15.replay_corpus()"},
+                          key="dagwalker:exception-leaves-stack:%s" % name)
+        chk.count(("corpus", name))
+    env = Environment()
+    m = env.formula_manager
+    p_, x, y, z = [m.Symbol(n, BOOL) for n in ("p", "x", "y", "z")]
+    a, b, c, i = [m.Symbol(n, INT) for n in ("a", "b", "c", "i")]
+    sub = env.substituter
+    key = "dagwalker:exception-keeps-oneshot-memo:MGSubstituter"
+    stats["failing_calls"] += 2
+    expect(key, "substitute(And(Not p, a<b), {p:a, a:c}) must raise",
+           (outcome(lambda: sub.substitute(m.And(m.Not(p_), m.LT(a, b)), {p_: a, a: c}))[0], None), ("raise", None))
+    expect(key, "substitute(a<b, {a:b}) after the failing substitution", outcome(lambda: sub.substitute(m.LT(a, b), {a: b})), ("ok", m.LT(b, b)))
+    expect(key, "substitute(And(x, Not y), {y:i}) must raise",
+           (outcome(lambda: sub.substitute(m.And(x, m.Not(y)), {y: i}))[0], None), ("raise", None))
+    expect(key, "substitute(And(x,z), {x:z}) after the failing substitution", outcome(lambda: sub.substitute(m.And(x, z), {x: z})), ("ok", m.And(z, z)))
+    expect(key, "substitute(x, {x:y}) after the failing substitution", outcome(lambda: sub.substitute(x, {x: y})), ("ok", y))
+    if len(sub.stack) != 0 or len(sub.memoization) != 0:
+        chk.violation({"kind": "history", "what": "env.substituter keeps %d stack entries / %d memo entries after failing calls"
+                       % (len(sub.stack), len(sub.memoization)), "repro": "harness.c15.replay_corpus()"}, key=key)
+    chk.count(("corpus", "substituter"))
+
+
+def replay_corpus():
+    warnings.simplefilter("ignore")
+    c = _Chk()
+    run_corpus(c, _stats())
+    return 1 if c.v else 0
+
+
 def run(tier):
     chk = lib.Check("C15", tier)
     rnd = random.Random(chk.seed)
@@ -405,6 +470,7 @@ def run(tier):
     ok = chk.prove()
     stats = {"failing_calls": 0, "probe_calls": 0, "fault_not_reached": 0, "histories_with_trace": 0}
     specs = _specs()
+    run_corpus(chk, stats)
     rows_out, meta = [], []
     nform = 10 if tier == "quick" else 80
     for k in range(nform):
@@ -448,6 +514,7 @@ def run(tier):
     chk.cov["correspondence"] = {"model_histories": len(rows_out), "disagreements": len(corr_bad), "examples": corr_bad[:6],
                                  "compared": "per call: answer kind, callback order, loop iterations, stack left, memo keys left"}
     chk.cov["fault_injection"] = stats
+    chk.cov["corpus"] = CORPUS
     chk.cov["faults"] = ["callback raising at every key of the traversal (injected)", "unsupported operator (custom node type)",
                          "ill-typed substitution", "ill-typed construction", "parser: " + ", ".join(l for l, _ in BAD_SCRIPTS)]
     if meta:
@@ -462,7 +529,7 @@ def run(tier):
         chk.violation({"kind": "obligation", "theorem_or_correspondence": what}, found_input=False)
     return chk.finish(TRUSTED, ASSUMPTIONS,
                       "random shared-DAG formulas (walkgen recipes) x 8 environment-wide walkers x a fault at every key of the traversal, "
-                      "plus natural faults; each followed by a fixed probe sequence, compared with an untouched twin Environment and with the Coq model")
+                      "plus natural faults and the corpus of repaired defects; each followed by a fixed probe sequence, compared with an untouched twin Environment and with the Coq model")
 
 
 # -------- replays --------------------------------------------------------------------------------
@@ -514,5 +581,6 @@ def replay(path):
     print(json.dumps(r, indent=1)[:3000])
     rep = r.get("repro", "")
     if rep.startswith("harness.c15.replay_"):
+        rep = rep if rep.endswith(")") else rep + ")"
         return eval(rep[len("harness.c15."):])
     return run("quick")
